@@ -14,7 +14,6 @@ import (
 	"runtime"
 	"sort"
 	"strconv"
-	"sync"
 	"sync/atomic"
 	"testing/synctest"
 	"time"
@@ -32,30 +31,60 @@ const (
 
 var opNames = [...]string{"start", "Lock", "RLock", "Once", "atomic"}
 
-// Enabler tells whether a pending acquisition can proceed now.
-type Enabler interface{ CanProceed(op int) bool }
+// LockState lives inside the shim objects; the scheduler reads it with atomic loads only.
+// Mutex: A = held. RWMutex: A = writer, B = readers. Once: A = running.
+type LockState struct{ A, B atomic.Int32 }
 
+// object kinds
+const (
+	KNone = iota
+	KMutex
+	KRW
+	KOnce
+)
+
+func canProceed(kind, op int, st *LockState) bool {
+	if st == nil {
+		return true
+	}
+	switch kind {
+	case KRW:
+		if op == OpRLock {
+			return st.A.Load() == 0
+		}
+		return st.A.Load() == 0 && st.B.Load() == 0
+	case KMutex, KOnce:
+		return st.A.Load() == 0
+	}
+	return true
+}
+
+// All fields shared between a thread and the scheduler are atomics and are only touched inside
+// RaceDisable sections, so they are invisible to the race detector. Thread slots (and their gate
+// channels) are allocated by the scheduler's goroutine in New, before any thread exists.
 type thread struct {
 	idx     int
-	gid     uint64
-	name    string
+	gid     atomic.Uint64
 	gate    chan struct{}
 	state   atomic.Int32 // 0 running / blocked in real code, 1 parked at a point, 2 finished
-	op      int
-	obj     Enabler
-	objAddr unsafe.Pointer
-	harness bool
+	op      atomic.Int32
+	kind    atomic.Int32
+	objAddr atomic.Uintptr // identity for labels only
+	lock    atomic.Pointer[LockState]
+	harness atomic.Bool
 	fin     chan struct{}
+	name    string // harness threads only; written and read by the scheduler's goroutine
 }
+
+const maxThreads = 64
 
 // Sched is one scheduler instance (one execution).
 type Sched struct {
-	mu      sync.Mutex // protects threads/byGid (taken only inside RaceDisable sections)
-	threads []*thread
-	byGid   map[uint64]*thread
-	active  atomic.Bool
-	objIDs  map[unsafe.Pointer]int
-	Trace   []string
+	slots  [maxThreads]thread
+	n      atomic.Int32
+	active atomic.Bool
+	objIDs map[uintptr]int
+	Trace  []string
 	// Horizon: how many times virtual time may be advanced when nothing is enabled.
 	Horizon  int
 	Quantum  time.Duration
@@ -65,6 +94,7 @@ type Sched struct {
 
 var cur atomic.Pointer[Sched]
 
+//go:norace
 func goid() uint64 {
 	var buf [64]byte
 	n := runtime.Stack(buf[:], false)
@@ -74,24 +104,42 @@ func goid() uint64 {
 	return id
 }
 
+func (s *Sched) lookup(g uint64) *thread {
+	n := int(s.n.Load())
+	for i := 0; i < n; i++ {
+		if s.slots[i].gid.Load() == g {
+			return &s.slots[i]
+		}
+	}
+	return nil
+}
+
+func (s *Sched) claim() *thread {
+	i := int(s.n.Add(1)) - 1
+	if i >= maxThreads {
+		panic("sched: too many threads")
+	}
+	return &s.slots[i]
+}
+
 // Point is called by the shims before an acquisition / atomic operation.
-func Point(op int, obj Enabler, addr unsafe.Pointer) {
+func Point(op int, kind int, st *LockState, addr unsafe.Pointer) {
 	s := cur.Load()
 	if s == nil || !s.active.Load() {
 		return
 	}
 	raceDisable()
 	g := goid()
-	s.mu.Lock()
-	th := s.byGid[g]
+	th := s.lookup(g)
 	if th == nil {
 		// a goroutine the code under test spawned itself: adopt it
-		th = &thread{idx: len(s.threads), gid: g, name: fmt.Sprintf("g%d", len(s.threads)), gate: make(chan struct{})}
-		s.threads = append(s.threads, th)
-		s.byGid[g] = th
+		th = s.claim()
+		th.gid.Store(g)
 	}
-	th.op, th.obj, th.objAddr = op, obj, addr
-	s.mu.Unlock()
+	th.op.Store(int32(op))
+	th.kind.Store(int32(kind))
+	th.lock.Store(st)
+	th.objAddr.Store(uintptr(addr))
 	th.state.Store(1)
 	<-th.gate
 	th.state.Store(0)
@@ -104,38 +152,40 @@ type Chooser interface {
 	ChooseFree(n int, free bool, label func(int) string) int
 }
 
-// New creates a scheduler and makes it current.
+// New creates a scheduler and makes it current. Must be called by the goroutine that will call Run,
+// before any thread is started.
 func New() *Sched {
-	s := &Sched{byGid: map[uint64]*thread{}, objIDs: map[unsafe.Pointer]int{}, Horizon: 4, Quantum: time.Second}
+	s := &Sched{objIDs: map[uintptr]int{}, Horizon: 4, Quantum: time.Second}
+	for i := range s.slots {
+		s.slots[i].idx = i
+		s.slots[i].gate = make(chan struct{})
+		s.slots[i].fin = make(chan struct{})
+	}
 	cur.Store(s)
 	return s
 }
 
 // Go registers a harness thread. It starts parked at a "start" point.
 func (s *Sched) Go(name string, f func()) {
-	th := &thread{name: name, gate: make(chan struct{}), harness: true, fin: make(chan struct{})}
 	raceDisable()
-	s.mu.Lock()
-	th.idx = len(s.threads)
-	s.threads = append(s.threads, th)
-	s.mu.Unlock()
+	th := s.claim()
+	th.harness.Store(true)
 	raceEnable()
+	th.name = name
 	reg := make(chan struct{})
 	go func() {
 		raceDisable()
-		g := goid()
-		s.mu.Lock()
-		th.gid = g
-		s.byGid[g] = th
-		s.mu.Unlock()
-		th.op = OpStart
+		th.gid.Store(goid())
+		th.op.Store(OpStart)
 		th.state.Store(1)
 		close(reg)
 		<-th.gate
 		th.state.Store(0)
 		raceEnable()
 		defer func() {
+			raceDisable()
 			th.state.Store(2)
+			raceEnable()
 			close(th.fin) // a real, visible synchronisation: results may be read after <-fin
 		}()
 		f()
@@ -145,8 +195,8 @@ func (s *Sched) Go(name string, f func()) {
 	raceEnable()
 }
 
-func (s *Sched) objID(p unsafe.Pointer) int {
-	if p == nil {
+func (s *Sched) objID(p uintptr) int {
+	if p == 0 {
 		return 0
 	}
 	id, ok := s.objIDs[p]
@@ -157,25 +207,41 @@ func (s *Sched) objID(p unsafe.Pointer) int {
 	return id
 }
 
+func (s *Sched) tname(t *thread) string {
+	if t.name != "" {
+		return t.name
+	}
+	return "g" + strconv.Itoa(t.idx)
+}
+
 // Run schedules until every harness thread has finished (or deadlock / horizon).
 func (s *Sched) Run(ch Chooser) {
 	s.active.Store(true)
 	advances := 0
+	type cand struct {
+		th   *thread
+		op   int
+		addr uintptr
+	}
 	for {
 		raceDisable()
 		synctest.Wait()
-		s.mu.Lock()
-		ths := append([]*thread(nil), s.threads...)
-		s.mu.Unlock()
-		var enabled []*thread
+		n := int(s.n.Load())
+		var enabled []cand
 		allDone := true
-		for _, th := range ths {
+		for i := 0; i < n; i++ {
+			th := &s.slots[i]
 			st := th.state.Load()
-			if th.harness && st != 2 {
+			if th.harness.Load() && st != 2 {
 				allDone = false
 			}
-			if st == 1 && (th.op == OpStart || th.op == OpAtomic || th.obj == nil || th.obj.CanProceed(th.op)) {
-				enabled = append(enabled, th)
+			if st != 1 {
+				continue
+			}
+			op := int(th.op.Load())
+			addr := th.objAddr.Load()
+			if op == OpStart || op == OpAtomic || canProceed(int(th.kind.Load()), op, th.lock.Load()) {
+				enabled = append(enabled, cand{th, op, addr})
 			}
 		}
 		raceEnable()
@@ -193,21 +259,21 @@ func (s *Sched) Run(ch Chooser) {
 		}
 		// canonical order: the thread that ran last first (if enabled), then ascending index
 		sort.SliceStable(enabled, func(i, j int) bool {
-			if (enabled[i] == s.last) != (enabled[j] == s.last) {
-				return enabled[i] == s.last
+			if (enabled[i].th == s.last) != (enabled[j].th == s.last) {
+				return enabled[i].th == s.last
 			}
-			return enabled[i].idx < enabled[j].idx
+			return enabled[i].th.idx < enabled[j].th.idx
 		})
-		free := enabled[0] != s.last
+		free := enabled[0].th != s.last
 		c := 0
 		lab := func(i int) string {
 			t := enabled[i]
-			return fmt.Sprintf("%s:%s#%d", t.name, opNames[t.op], s.objID(t.objAddr))
+			return fmt.Sprintf("%s:%s#%d", s.tname(t.th), opNames[t.op], s.objID(t.addr))
 		}
 		if len(enabled) > 1 {
 			c = ch.ChooseFree(len(enabled), free, lab)
 		}
-		th := enabled[c]
+		th := enabled[c].th
 		s.Trace = append(s.Trace, lab(c))
 		s.last = th
 		raceDisable()
@@ -217,10 +283,9 @@ func (s *Sched) Run(ch Chooser) {
 	// free-running from here: release everything that is still parked
 	s.active.Store(false)
 	raceDisable()
-	s.mu.Lock()
-	ths := append([]*thread(nil), s.threads...)
-	s.mu.Unlock()
-	for _, th := range ths {
+	n := int(s.n.Load())
+	for i := 0; i < n; i++ {
+		th := &s.slots[i]
 		if th.state.Load() == 1 {
 			select {
 			case th.gate <- struct{}{}:
@@ -231,14 +296,18 @@ func (s *Sched) Run(ch Chooser) {
 	raceEnable()
 }
 
-// Wait blocks until harness thread i has finished (visible synchronisation).
+// WaitAll reports the harness threads that have not finished; for the finished ones it performs a
+// visible synchronisation (receive from the channel the thread closed), after which their results
+// may be read.
 func (s *Sched) WaitAll() (unfinished []string) {
-	for _, th := range s.threads {
-		if th.harness {
+	n := int(s.n.Load())
+	for i := 0; i < n; i++ {
+		th := &s.slots[i]
+		if th.harness.Load() {
 			select {
 			case <-th.fin:
 			default:
-				unfinished = append(unfinished, th.name)
+				unfinished = append(unfinished, s.tname(th))
 			}
 		}
 	}
